@@ -1,6 +1,8 @@
 """C12 - ambiguous macro patterns are rejected, deterministic ones are accepted."""
 import itertools
 
+import sys
+
 from .. import harness
 from ..ref import includes, lexer as L, macros as RM, patterns
 from . import common
@@ -134,7 +136,7 @@ def source(p):
     return text
 
 
-def work(spec):
+def _work(spec):
     part = harness.new_partial()
     if spec["kind"] == "sets":
         work_sets(spec, part)
@@ -200,5 +202,21 @@ def finish(merged, tier, seed):
     return {"exhaustive": True, "exhaustive_scope": "all patterns of length <= %d over %d symbols" % (3 if tier == "quick" else 4, len(SYMS))}
 
 
+
+
+def work(spec):
+    part = _work(spec)
+    for v in part["violations"]:
+        if isinstance(v.get("case"), dict):
+            v["case"]["spec"] = spec
+    return part
+
+
 def replay(case):
-    return []
+    """re-run the chunk the stored case came from and report the violations with the same signature family"""
+    if "spec" not in case:
+        return []
+    from .. import harness as _h
+    if hasattr(sys.modules[__name__], "plan") and case["spec"].get("kind") in ("seq", "conc"):
+        plan("quick", case["spec"].get("seed", 1))   # C18: baselines are computed in plan()
+    return _work(case["spec"])["violations"]
